@@ -3,6 +3,7 @@
   (`Generated/Surface.lean`), against the surface the model implements — see SurfaceDefs.lean.
 -/
 import Axelar.Proofs.SurfaceDefs
+import Axelar.Model.Governance
 namespace Axelar.Surface
 open Axelar Generated
 
@@ -21,5 +22,33 @@ def governanceExpected : List (String × String × Bool × String × Nat) := [
 theorem governance_surface : governanceSurface.map sig = governanceExpected := by decide
 
 theorem governance_storage_no_alias : noAlias governanceStorage = true ∧ keysNodup governanceStorage = true := by decide
+
+end Axelar.Surface
+
+namespace Axelar.Surface
+open Axelar Governance
+
+/-- **The model changes the governance contract's storage, moves funds or dispatches a call only through an
+    endpoint of the regenerated surface** (`execute`, the command endpoint, is modelled next to the gateway:
+    `Governance.execute`; it is in the surface as well). -/
+theorem governance_effects_only_through_surface (C : Crypto) (st : State) (ctx : Ctx) (func : String)
+    (args : List Bytes) (out : Out) (h : call C st ctx func args = .ok out)
+    (hne : out.st ≠ st ∨ out.sends ≠ [] ∨ out.dispatch ≠ none) :
+    ∃ e ∈ Generated.governanceSurface, e.kind = "endpoint" ∧ e.name = func := by
+  unfold call at h
+  split at h
+  · decide
+  · decide
+  · split at h
+    · cases h
+    · split at h
+      all_goals first
+        | decide
+        | (exfalso
+           repeat' (first | (cases h; done) | split at h)
+           all_goals (cases h; simp at hne))
+
+theorem governance_execute_in_surface :
+    ∃ e ∈ Generated.governanceSurface, e.kind = "endpoint" ∧ e.name = "execute" ∧ e.payable = "" := by decide
 
 end Axelar.Surface
